@@ -207,6 +207,24 @@ class Deps:
         self._defs[key] = out
         return out
 
+    def contributions(self, fi: FunctionInfo, name: str) -> list[ast.AST]:
+        """Values put *into* the container a local names (item stores, append / add / extend / update / insert / setdefault):
+        what the container holds depends on them although they are not definitions of the name."""
+        key = (fi.qualname, name)
+        memo = self.__dict__.setdefault("_contrib", {})
+        if key in memo:
+            return memo[key]
+        out: list[ast.AST] = []
+        for n in fi.own_nodes():
+            if isinstance(n, (ast.Assign, ast.AugAssign)):
+                for t in n.targets if isinstance(n, ast.Assign) else [n.target]:
+                    if isinstance(t, ast.Subscript) and is_name(t.value, name):
+                        out += [n.value, t.slice]
+            elif isinstance(n, ast.Call) and isinstance(n.func, ast.Attribute) and is_name(n.func.value, name) and n.func.attr in ("append", "appendleft", "add", "extend", "update", "insert", "setdefault"):
+                out += [*n.args, *[k.value for k in n.keywords]]
+        memo[key] = out
+        return out
+
     @staticmethod
     def _target_defs(target: ast.AST, value: ast.AST, name: str, out: list) -> None:
         if is_name(target, name):
@@ -261,6 +279,8 @@ class Deps:
                     sub.add(f"def:{e.id}")
                 else:
                     self._collect(node, sub, stack | {key})
+            for node in self.contributions(owner, e.id):
+                self._collect(node, sub, stack | {key})
             if not stack:
                 self._memo[key] = frozenset(sub)
             out.update(sub)
